@@ -71,11 +71,19 @@ impl Method for HMA {
 		#[allow(clippy::cast_sign_loss)]
 		match length {
 			0 | 1 => Err(Error::WrongMethodParameters),
-			length => Ok(Self {
-				wma1: WMA::new(length / 2, value)?,
-				wma2: WMA::new(length, value)?,
-				wma3: WMA::new((length as ValueType).sqrt() as PeriodType, value)?,
-			}),
+			length => {
+				let wma1 = WMA::new(length / 2, value)?;
+				let wma2 = WMA::new(length, value)?;
+				// the last stage is fed `2*wma1 - wma2`, which may differ from `value` by a rounding error even on a constant input:
+				// seeding it with `value` itself made the first outputs of a constant stream move
+				let seed = wma1.peek().mul_add(2., -wma2.peek());
+
+				Ok(Self {
+					wma1,
+					wma2,
+					wma3: WMA::new((length as ValueType).sqrt() as PeriodType, &seed)?,
+				})
+			}
 		}
 	}
 
